@@ -71,13 +71,30 @@ def gen_hostenv(src: Path):
     try:
         mod = ast.parse((src / "mcp_client/host/environment.py").read_text())
         consts = {}
+        branches = None                      # statement form: `if sys.platform …: NAME = [...] else: NAME = [...]`
         for st in mod.body:
-            if isinstance(st, ast.Assign) and len(st.targets) == 1 and isinstance(st.targets[0], ast.Name):
-                consts[st.targets[0].id] = st.value
+            if isinstance(st, (ast.Assign, ast.AnnAssign)):
+                tgt = st.targets[0] if isinstance(st, ast.Assign) and len(st.targets) == 1 else getattr(st, "target", None)
+                if isinstance(tgt, ast.Name) and st.value is not None:
+                    consts[tgt.id] = st.value
+            if isinstance(st, ast.If) and _is_platform_test(st.test) is not None:
+                def assigned(body):
+                    for b_ in body:
+                        if isinstance(b_, ast.Assign) and len(b_.targets) == 1 and isinstance(b_.targets[0], ast.Name) \
+                                and b_.targets[0].id == "DEFAULT_INHERITED_ENV_VARS":
+                            return b_.value
+                    return None
+                x, y = assigned(st.body), assigned(st.orelse)
+                if x is not None and y is not None:
+                    branches = (_is_platform_test(st.test), x, y)
         v = consts.get("DEFAULT_INHERITED_ENV_VARS")
-        if v is None:
+        if branches is not None:
+            t, x, y = branches
+            a, b = _str_list(x, consts), _str_list(y, consts)
+            posix, win32 = (a, b) if t else (b, a)
+        elif v is None:
             raise ValueError("DEFAULT_INHERITED_ENV_VARS not found")
-        if isinstance(v, ast.IfExp):
+        elif isinstance(v, ast.IfExp):
             t = _is_platform_test(v.test)
             if t is None:
                 raise ValueError("platform test not recognised")
@@ -91,9 +108,16 @@ def gen_hostenv(src: Path):
         uses_list = any(isinstance(n, ast.Name) and n.id == "DEFAULT_INHERITED_ENV_VARS" for n in ast.walk(fn))
         if not uses_list:
             raise ValueError("get_default_environment does not iterate DEFAULT_INHERITED_ENV_VARS")
-        prefixes = [n.args[0].value for n in ast.walk(fn)
-                    if isinstance(n, ast.Call) and isinstance(n.func, ast.Attribute) and n.func.attr == "startswith"
-                    and n.args and isinstance(n.args[0], ast.Constant) and isinstance(n.args[0].value, str)]
+        prefixes = []
+        for n in ast.walk(fn):
+            if isinstance(n, ast.Call) and isinstance(n.func, ast.Attribute) and n.func.attr == "startswith" and n.args:
+                a0 = n.args[0]
+                if isinstance(a0, ast.Name) and a0.id in consts:
+                    a0 = consts[a0.id]                # a module-level constant
+                if isinstance(a0, ast.Constant) and isinstance(a0.value, str):
+                    prefixes.append(a0.value)
+                else:
+                    raise ValueError("startswith() argument is not a literal")
         if len(prefixes) > 1:
             raise ValueError(f"several startswith() tests: {prefixes}")
         prefix = prefixes[0] if prefixes else None
@@ -118,8 +142,13 @@ end Verif.Gen.HostEnv
     return lean, report
 
 
-def _path_expr(e):
-    """`"name"` -> (False, name);  `Path.home() / "a" / "b"` -> (True, "a/b")"""
+def _is_home(e, homes):
+    return (isinstance(e, ast.Call) and isinstance(e.func, ast.Attribute) and e.func.attr == "home" and not e.args) \
+        or (isinstance(e, ast.Name) and e.id in homes)
+
+
+def _path_expr(e, homes=()):
+    """`"name"` -> (False, name);  `Path.home() / "a" / "b"` (or `home / …` with `home = Path.home()`) -> (True, "a/b")"""
     if isinstance(e, ast.Constant) and isinstance(e.value, str):
         return (False, e.value)
     parts = []
@@ -128,9 +157,46 @@ def _path_expr(e):
             raise ValueError("path component is not a literal")
         parts.append(e.right.value)
         e = e.left
-    if isinstance(e, ast.Call) and isinstance(e.func, ast.Attribute) and e.func.attr == "home" and not e.args:
+    if _is_home(e, homes):
         return (True, "/".join(reversed(parts)))
     raise ValueError("path expression not recognised")
+
+
+def _candidate_list(fn, mod, consts, depth=0):
+    """the ordered candidate list a function builds: a list/tuple display (assigned or returned) whose members are
+    literals, `*MODULE_TUPLE`, or home-relative paths; or the list of a module-level helper it calls"""
+    homes = {st.targets[0].id for st in ast.walk(fn) if isinstance(st, ast.Assign) and len(st.targets) == 1
+             and isinstance(st.targets[0], ast.Name) and _is_home(st.value, ())}
+    for n in ast.walk(fn):
+        if isinstance(n, (ast.List, ast.Tuple)) and n.elts:
+            try:
+                out = []
+                for e in n.elts:
+                    if isinstance(e, ast.Starred):
+                        out += [(False, x) for x in _str_list(e.value, consts)]
+                    elif isinstance(e, ast.Name) and e.id in consts and not isinstance(consts[e.id], ast.Constant):
+                        raise ValueError("name member")
+                    else:
+                        out.append(_path_expr(e, homes))
+                if out:
+                    return out
+            except ValueError:
+                continue
+    if depth < 2:
+        funcs = {s.name: s for s in mod.body if isinstance(s, ast.FunctionDef)}
+        for n in ast.walk(fn):
+            if isinstance(n, ast.Call) and isinstance(n.func, ast.Name) and n.func.id in funcs and n.func.id != fn.name:
+                try:
+                    return _candidate_list(funcs[n.func.id], mod, consts, depth + 1)
+                except ValueError:
+                    continue
+        for n in ast.walk(fn):                                   # a module-level tuple/list iterated directly
+            if isinstance(n, ast.Name) and n.id in consts and isinstance(consts[n.id], (ast.List, ast.Tuple)):
+                try:
+                    return [_path_expr(e, homes) for e in consts[n.id].elts]
+                except ValueError:
+                    continue
+    raise ValueError("candidate list of find_default_config not found")
 
 
 @translate.register("Cli")
@@ -142,10 +208,11 @@ def gen_cli(src: Path):
         fdc = next((s for s in mod.body if isinstance(s, ast.FunctionDef) and s.name == "find_default_config"), None)
         if fdc is None:
             raise ValueError("find_default_config not found")
-        lst = next((s.value for s in fdc.body if isinstance(s, ast.Assign) and isinstance(s.value, ast.List)), None)
-        if lst is None:
-            raise ValueError("candidate list of find_default_config not found")
-        cands = [_path_expr(e) for e in lst.elts]
+        mconsts = {}
+        for st in mod.body:
+            if isinstance(st, ast.Assign) and len(st.targets) == 1 and isinstance(st.targets[0], ast.Name):
+                mconsts[st.targets[0].id] = st.value
+        cands = _candidate_list(fdc, mod, mconsts)
         main = next((s for s in mod.body if isinstance(s, ast.FunctionDef) and s.name == "main"), None)
         if main is None:
             raise ValueError("main not found")
